@@ -139,6 +139,8 @@ def opkey(op):
 def step(ctx, g, M, cls, op, case, universe, do_battery=True):
     """execute op on real + model, run all monitors. returns False if the history must be abandoned"""
     kind = model.classify(M, cls, op)
+    if kind == "skip":
+        return True
     had_desc = bool(M["astereo"] or M["bstereo"] or M["achange"] or M["bchange"])
     status, val = model.apply_real(g, op)
     ctx.count("transitions")
@@ -299,7 +301,7 @@ def bfs(ctx, case):
             base_g, base_M = rebuild(hist)
             base_key = pg_key(base_M)
             for op in alpha:
-                if model.classify(base_M, cls, op) == "must-raise":
+                if model.classify(base_M, cls, op) in ("must-raise", "skip"):
                     continue
                 g, M = rebuild(hist)
                 h = hist + [op]
@@ -421,7 +423,7 @@ def random_history(ctx, case):
     removals = desc_ops = 0
     for i in range(case["length"]):
         op = random_op(rng, M, cls, ids)
-        if model.classify(M, cls, op) == "must-raise":
+        if model.classify(M, cls, op) in ("must-raise", "skip"):
             continue
         hist.append(op)
         uni = tuple(sorted(set(M["atoms"]) | {0, 1, ABSENT}, key=repr))[:6]
